@@ -32,8 +32,10 @@ func gen(seed uint64, tier string) []interface{} {
 			c = trig.GenShadow(r.Fork(), id, tier)
 		case q < 16:
 			c = trig.GenGrow(r.Fork(), id, tier)
-		case q < 18:
+		case q < 17:
 			c = trig.GenRandom(r.Fork(), id, tier)
+		case q < 19:
+			c = trig.GenDrift(r.Fork(), id, tier)
 		default:
 			c = trig.GenMalformed(r.Fork(), id, tier)
 		}
